@@ -1,5 +1,6 @@
 import DynasmVerif.Drv.Reloc
 import DynasmVerif.Drv.Asm
+import DynasmVerif.Drv.Fold
 
 /-! Line-protocol driver: reads request lines on stdin, answers each with one `= …` line.
 The first line `hdr <stream> …` selects the stream. The harness output (requests interleaved with its own
@@ -21,6 +22,7 @@ def exec (st : DState) (req hint : String) : DState × String :=
   | _ =>
     match st.stream with
     | "reloc" => (st, Drv.Reloc.handle ws)
+    | "fold" => (st, Drv.Fold.handle ws)
     | "asm" =>
       match ws with
       | ["reset"] => ({ st with asm := {} }, "= ok")
